@@ -16,6 +16,13 @@ def run(run):
     for tab, pc in lat.contexts(run, exh_quick=10, rand_quick=600, wide_quick=40, exh_thorough=14, nmax=10, mmax=10):
         if min(pc.n, pc.m) > 12:
             continue
+        if run.evaluations % 5 == 0 and not getattr(pc, 'reloaded', False):
+            # a partial lattice built directly above some objects (it may be refused) must leave the context's own lattice alone
+            try:
+                from concepts.lattices import Lattice
+                Lattice(pc.ctx, infimum=pc.objects[:1])
+            except Exception:
+                pass
         with guard(run, 'iter(Context.lattice)', [pc.line, 'lattice']):
             L = pc.ctx.lattice
             got = pairs_of(pc, L)
